@@ -87,6 +87,9 @@ BUILTIN_STRUCTS = {
     'PolymorphicIter': (['T'], [('alive', 'IndexRange'), ('data', 'T')]),
     'IndexRange': ([], [('start', 'usize'), ('end', 'usize')]),
     'Wrapping': (['T'], [('0', 'T')]),
+    'Ulps': (['A'], [('epsilon', 'R'), ('max_ulps', 'u32')]),
+    'Relative': (['A'], [('epsilon', 'R'), ('max_relative', 'R')]),
+    'AbsDiff': (['A'], [('epsilon', 'R')]),
     'Alignment': ([], [('0', 'usize')]),
     'Layout': ([], [('size', 'usize'), ('align', 'usize')]),
 }
@@ -468,6 +471,8 @@ def parse_place(s):
 
 def parse_operand(o):
     o = o.strip()
+    if o.startswith('no_retag '):
+        o = o[9:].strip()
     if o.startswith('copy ') or o.startswith('move '):
         loc, pr = parse_place(o[5:])
         return ('place', loc, tuple(pr))
@@ -484,6 +489,8 @@ UNOPS = {'Neg', 'Not', 'PtrMetadata'}
 
 def parse_rvalue(rv):
     rv = rv.strip()
+    if rv.startswith('no_retag '):
+        rv = rv[9:].strip()
     m = re.match(r'^(\w+)\((.*)\)$', rv, re.S)
     if m and m.group(1) in BINOPS:
         a, b = split_top(m.group(2))
